@@ -25,7 +25,7 @@ def _param_struct(f, i):
 def r01b(ctx, rep, cr):
     rep.rule('R01b', 'in handle_request_vote the write voted_for = Some(candidate) has, among the switch edges every path to it must '
                      'take, tests whose operand slices read the stored vote, the request term and current term, the candidate\'s '
-                     'last log term/index and the local log\'s last term/index')
+                     'last log term/index and the local log\'s last term/index (read directly or inside a helper the test\'s operands come from)')
     f = rep.require_fn('R01b', cr, RN + 'handle_request_vote')
     if f is None:
         return
@@ -53,7 +53,7 @@ def r01b(ctx, rep, cr):
         nc = A.necessary_condition_sources(f, w[0], defs, cd, dom)
         got = set()
         for (_, _, sl) in nc:
-            got |= sl.fields
+            got |= lib.slice_fields_deep(cr.fns, sl, 'tensor_chain::', depth=2)
         for what, fields in need.items():
             if any(x in got for x in fields):
                 rep.holds('R01b', f, what, 'consulted by a necessary condition of the grant (%d must-pass tests)' % len(nc))
@@ -244,22 +244,15 @@ def r01f(ctx, rep, cr):
             n += 1
             rep.analysed(f)
             ok = False
-            for (a, s2, sl) in A.necessary_condition_sources(f, c.bb, defs, cd):
-                l = lib.switch_local(f, a)
-                d = A.single_def(defs, l) if l is not None else None
-                t = f.bbs[a]['t']
-                if not d:
+            for at in lib.must_pass_atoms(cr.fns, f, defs, c.bb):
+                if at.kind != 'cmp' or at.op != 'Ne':
                     continue
-                if d[2] == 'st' and d[3][1][0] == 'bin' and d[3][1][1] in ('Ne', 'Eq'):
-                    s1 = A.backward_slice(f, [d[3][1][2]], defs)
-                    s3 = A.backward_slice(f, [d[3][1][3]], defs)
-                    both_terms = (NET + 'LogEntry.term') in s1.fields and (NET + 'LogEntry.term') in s3.fields
-                    # one side is the stored log, the other the incoming entries
-                    stored = (PS + '.log') in (s1.fields | s3.fields)
-                    nonzero = (s2 == t[3])
-                    differs_edge = nonzero if d[3][1][1] == 'Ne' else not nonzero
-                    if both_terms and stored and differs_edge:
-                        ok = True
+                s1, s3 = at.side_slices()
+                both_terms = (NET + 'LogEntry.term') in s1.fields and (NET + 'LogEntry.term') in s3.fields
+                # one side is the stored log, the other the incoming entries
+                stored = (PS + '.log') in (s1.fields | s3.fields)
+                if both_terms and stored:
+                    ok = True
             if ok:
                 rep.holds('R01f', f, 'log ' + c.generic.split('::')[-1], 'only on the term-differs edge')
             else:
